@@ -87,8 +87,11 @@ def main():
                                            "note": "process-wide one-entry index cache in the Hilbert view, protected by a std::mutex - correct"}
     index["benign_nn_round_half_away"] = {"patch": "mutants/benign_nn_round_half_away.patch", "properties": [], "silent": ["C04", "C02", "C05", "C15"],
                                           "note": "nearest neighbour with std::lround (ties away from zero instead of to even) - still a closest lattice point"}
-    index["benign_linear_1d_lerp_form"] = {"patch": "mutants/benign_linear_1d_lerp_form.patch", "properties": [], "silent": ["C03", "C02"],
-                                           "note": "1-D linear path written as v0 + a*(v1-v0) - the same interpolant up to rounding"}
+    # first kept as a "benign" variant; seed C03d (the same rewrite, found independently) showed that it is not: the property
+    # quantifies over arbitrary finite stored values, and v1 - v0 overflows for opposite-sign neighbours near the largest
+    # finite value (NaN at the lattice point, inf inside the cell) where the convex form cannot
+    index["linear_1d_difference_form"] = {"patch": "mutants/linear_1d_difference_form.patch", "properties": ["C03"],
+                                          "note": "1-D linear path written as v0 + a*(v1-v0): equal up to rounding for ordinary data, overflows for opposite-sign neighbours near the largest finite value"}
     index["benign_reworded_static_asserts"] = {"patch": "mutants/benign_reworded_static_asserts.patch", "properties": [], "silent": ["C13"],
                                                "note": "two kind-check messages reworded"}
     index["benign_clamp_view_padding"] = {"patch": "mutants/benign_clamp_view_padding.patch", "properties": [], "silent": ["C13", "C02", "C10", "C17"],
